@@ -7,5 +7,5 @@ CONSTANTS
   UnitAlpha = {"B", "M", "b", "y", "t", "e", "s", "/", "*", "-", " ", "x"}
   PoolN = 10
   SeqMax = 3
-INVARIANTS TypeOK ScaleOpInDecl ScaleDeclEqOp ScaleFourDigits ScaleBelow OutsideIsEdge BoundaryIsThreshold AcceptNonEmpty CommonOK ClassOK
+INVARIANTS TypeOK ScaleOpInDecl ScaleDeclEqOp DecimalHandOverUnique BinaryHandOverBand ScaleFourDigits ScaleBelow OutsideIsEdge BoundaryIsThreshold AcceptNonEmpty CommonOK ClassOK
 CHECK_DEADLOCK FALSE
